@@ -50,6 +50,12 @@ func genPools(r *Rng, tier string, stat func(string)) []string {
 				ops = append(ops, fmt.Sprintf("open:%d:%d:%s", c, r.Intn(2), role))
 				open[c] = true
 				cur[c] = false
+				if r.Intn(6) == 0 {
+					// a read limit below some of the messages that follow: their reads fail in the middle of a compressed message
+					ops = append(ops, fmt.Sprintf("limit:%d:%d", c, r.Pick([]int{100, 4096, 20000})))
+					stat("limit")
+					continue
+				}
 				if r.Intn(4) == 0 {
 					// the first compressed message of the new connection refers back beyond its own start
 					ops = append(ops, fmt.Sprintf("probe:%d:%d", c, r.Intn(2)))
@@ -113,6 +119,14 @@ func genPools(r *Rng, tier string, stat func(string)) []string {
 		for tk := 0; tk < 2; tk++ {
 			out = append(out, fmt.Sprintf("hist=open:0:%d:%s|wfail:0:600|open:1:%d:%s|open:2:%d:%s|wpart:1:600|wpart:2:600|wmsg:0:600", tk, role, tk, role, tk, role))
 			out = append(out, fmt.Sprintf("hist=open:0:%d:%s|wmsg:0:600|wfail:0:5000|open:1:%d:%s|wmsg:1:600|open:2:%d:%s|wpart:2:600|wpart:1:600|closenow:1|closenow:2|open:0:%d:%s|wmsg:0:700", tk, role, tk, role, tk, role, tk, role))
+		}
+		// the read limit trips in the middle of a compressed message, the connection is closed; the next two connections read
+		// compressed messages alternately, each in pieces: every buffered reader belongs to one connection at a time
+		for tk := 0; tk < 2; tk++ {
+			for _, lim := range []int{100, 4096} {
+				out = append(out, fmt.Sprintf("hist=open:0:%d:%s|limit:0:%d|msg:0:40000|readall:0|open:1:%d:%s|open:2:%d:%s|msg:1:5000|read:1:16|msg:2:5000|read:2:16|readall:1|readall:2|msg:1:600|msg:2:600|read:1:64|read:2:64|readall:1|readall:2", tk, role, lim, tk, role, tk, role))
+				out = append(out, fmt.Sprintf("hist=open:0:%d:%s|msg:0:600|readall:0|limit:0:%d|msg:0:5000|read:0:1000|readall:0|open:1:%d:%s|msg:1:40000|read:1:1000|open:2:%d:c|msg:2:40000|read:2:1000|readall:1|readall:2", tk, role, lim, tk, role, tk))
+			}
 		}
 		// client connections recycle their bufio reader and writer: B, opened after A went away, talks to its own peer
 		out = append(out, fmt.Sprintf("hist=open:0:1:c|wmsg:0:600|msg:0:600|readall:0|closenow:0|open:1:1:%s|wmsg:1:700|msg:1:600|readall:1|open:2:0:c|wmsg:2:100|wmsg:1:100|msg:2:40|readall:2", role))
@@ -226,6 +240,7 @@ type poolConn struct {
 	nmsg   int
 	closed bool
 	wopen  bool // a Writer was left unfinished: further writes on this connection would block
+	limit  bool // a read limit was set: a message above it fails its read (then the connection is closed at once)
 }
 
 func runPools(kv map[string]string) string {
@@ -297,6 +312,13 @@ func runPools(kv map[string]string) string {
 			c.SetReadLimit(-1)
 			conns[ci] = &poolConn{c: c, raw: raw, snd: &sender{r: NewRng(uint64(ci + 1)), masked: cfg.Role == "server", flate: true, takeover: tk}}
 			go raw.ReadAllUntilClosed()
+		case "limit":
+			if pc == nil || pc.closed {
+				continue
+			}
+			n, _ := strconv.Atoi(f[2])
+			pc.c.SetReadLimit(int64(n))
+			pc.limit = true
 		case "probe":
 			if pc == nil || pc.closed || pc.nmsg > 0 {
 				continue
@@ -340,6 +362,10 @@ func runPools(kv map[string]string) string {
 				b, err := io.ReadAll(pc.rd)
 				obs = append(obs, fmt.Sprintf("%d:%d:%v:%s", ci, len(b), ownBytes(ci, b), status(err)))
 				if err != nil {
+					if pc.limit && !pc.closed {
+						pc.c.CloseNow()
+						pc.closed = true
+					}
 					pc.rd = nil
 					flushTrace(ci)
 					continue
@@ -377,6 +403,14 @@ func runPools(kv map[string]string) string {
 				b = buf[:n]
 			}
 			obs = append(obs, fmt.Sprintf("%d:%d:%v:%s", ci, len(b), ownBytes(ci, b), status(err)))
+			if status(err) == "err" && pc.limit && !pc.closed {
+				// the message was above the read limit of this connection: the library has answered 1009; the application closes
+				pc.c.CloseNow()
+				pc.closed = true
+				pc.rd = nil
+				flushTrace(ci)
+				continue
+			}
 			if status(err) == "err" && !pc.closed {
 				// nothing was wrong on this connection: complete, well-formed messages, no close, no cancellation
 				obs = append(obs, fmt.Sprintf("%d:unexpected-error:%s", ci, f[0]))
